@@ -6,6 +6,11 @@ VERIF = os.path.dirname(os.path.dirname(os.path.abspath(__file__)))
 ALL = ["C%02d" % i for i in range(1, 21)]
 
 CLAIMED = {
+ "C05": dict(
+   technique="Timed TLA+ spec TcpRelay.tla (one proxied connection: client / server writes of several segment kinds, half-closes in any order, idle periods relative to the DNS-detection, prefetch, sniffing and half-close-grace windows; the obligations after every event: prefix always, nothing withheld after the windows, end of stream passed on, a direction ended only after the opposite end of stream plus grace, idle time never ends a connection) model-checked with TLC; simulated behaviours replayed event by event on the real ControlPlane.handleConn over in-memory TCP-like sockets in virtual time (testing/synctest)",
+   text="TLC checks the obligations' own consistency exhaustively for all 4-event histories (Monotone, EndsOnlyAfterEof, IdleNeverCuts, DelayBounded) and simulates 7-event histories for ports 443 and 53. Each is executed on the real handleConn (DNS-over-TCP detection with bufio fall-through, prefetch, ConnSniffer, routeDial through a one-node group to a fake destination, RelayTCPContextWithRecords with the gather / loop copy paths): after every event the bytes received on both ends are compared with the bytes sent (prefix, completeness once the detection windows are over), end-of-stream propagation, and whether the relay ended the connection without licence. This found and fixed three defects (uint16 overflow panic on port 53, leaked 5 s DNS-probe deadline, half-close not forwarded through the sniffing wrappers) and depends on the sniffer fix recorded under C06.",
+   note="In-memory sockets: the splice(2) and writev paths that need *net.TCPConn on both sides are exercised by the real-socket part only for byte fidelity and half-close (wall clock, short histories). The destination dial is a fake. Trusted: TLC, testing/synctest.",
+   design="§3 C05"),
  "C06": dict(
    technique="Generative TLA+ spec Sniff.tla: abstract TLS ClientHello / HTTP/1 request head / QUIC Initial flight structures with the expected outcome computed from the RFC structure (first host_name entry of server_name, first Host header, CRYPTO range coverage), delivery plans (cuts into reads with gaps relative to the sniffing timeout; CRYPTO frames split, reordered, duplicated, padded, spread over packets and datagrams, coalesced foreign packets; drain method) enumerated / simulated by TLC; every case rendered to bytes (QUIC packets protected by an independent RFC 9001/9369 implementation on the standard library) and run through NewConnSniffer.SniffTcp over a scheduled in-memory connection in virtual time and NewPacketSniffer/AppendData/SniffUdp",
    text="TLC enumerates all hellos with up to 2 (thorough: 3) extensions in all orders (SNI with one / several / unknown-type / no entries, GREASE, padding, ALPN, supported_versions, key_share), record and legacy versions, session ids, non-hello handshake types, all HTTP heads of up to 2 (3) headers over 4 methods, all cut sets of up to 2 cuts over 6 positions x 3 gap classes x 3 drain methods, and simulates QUIC v1/v2 flights of up to 3 packets. Compared: the outcome class and name against the RFC expectation, completion within the sniffing timeout, bytes handed on afterwards through Read / WriteTo / TakeRelayPrefix equal to the bytes sent (the connection stays usable), datagrams byte-for-byte unchanged and in order, no panic; random / truncated / bit-flipped inputs carry only the totality and payload obligations. This found and fixed three defects (sticky timeout error, truncated Host, QUIC v2 never recognised).",
